@@ -258,7 +258,7 @@ def nonnan_bits(rnd, t):
 def main(chk):
     quick = chk.tier == 'quick'
     w2c2 = env.build_translator('plain')
-    nmods = 60 if quick else 4000
+    nmods = 200 if quick else 4000
     builds = [('gcc-O1', 'gcc', ['-O1'])] + ([] if quick else [('clang-O2', 'clang', ['-O2'])])
 
     def one(k):
